@@ -22,9 +22,14 @@ var _ = Register("C07", func() interface{} { return new(ParseCase) }, func(c int
 func genC07(t *rapid.T) *ParseCase {
 	d := genDecl(t, c07Decl)
 	c := &ParseCase{D: d}
-	switch rapid.IntRange(0, 2).Draw(t, "policy") {
+	switch rapid.IntRange(0, 3).Draw(t, "policy") {
 	case 1:
 		d.Opts |= uint(flags.IgnoreUnknown)
+	case 3:
+		// both: IgnoreUnknown is what the options say, a handler is installed
+		// as well (the pass-through policy applies, the handler stays idle)
+		d.Opts |= uint(flags.IgnoreUnknown)
+		c.Handler = &HandlerSpec{Mode: rapid.SampledFrom([]string{"same", "drop1"}).Draw(t, "hmodeBoth")}
 	case 2:
 		c.Handler = &HandlerSpec{Mode: rapid.SampledFrom([]string{"same", "same", "drop1", "replace"}).Draw(t, "hmode")}
 		if c.Handler.Mode == "replace" {
@@ -67,6 +72,12 @@ func c07Oracle(c *ParseCase) string {
 	policy := "none"
 	if c.D.Has(flags.IgnoreUnknown) {
 		policy = "ignore"
+		if c.Handler != nil {
+			st.Label("IgnoreUnknown with a handler installed as well")
+			if len(rr.Handler) != 0 {
+				return fmt.Sprintf("IgnoreUnknown is set, yet the unknown-option handler was called: %v", rr.Handler)
+			}
+		}
 	} else if c.Handler != nil {
 		policy = "handler:" + c.Handler.Mode
 	}
